@@ -117,6 +117,10 @@ func runRules(c *runner.Ctx, idx *int) {
 				continue
 			}
 			ruleInputs(c.Thorough(), first, func(in []byte) {
+				// a fault inside the transaction kills the process: leave a trace first
+				sc := direct("", in)
+				sc.Kind, sc.Chunk, sc.Thorough = "rulegroup", g, c.Thorough()
+				c.Heartbeat(sc)
 				evalRules(c, c, w, group, in)
 			})
 			scen.Close(w)
@@ -146,12 +150,15 @@ func pipeline(list []string, in string) (truth []string, model []string, liar *s
 	model = []string{in}
 	v, mv := in, in
 	for _, t := range eff {
+		// the calls get private copies: the oracle's own values must not depend
+		// on a transformation that writes into its argument
 		f := mustGet(t)
-		if out, _, err := f(v); err == nil {
-			v = out
+		if out, _, err := f(heapString([]byte(v))); err == nil {
+			v = strings.Clone(out)
 		}
 		truth = append(truth, v)
-		out, ch, err := f(mv)
+		out, ch, err := f(heapString([]byte(mv)))
+		out = strings.Clone(out)
 		if err == nil {
 			if ch {
 				mv = out
@@ -162,6 +169,25 @@ func pipeline(list []string, in string) (truth []string, model []string, liar *s
 		}
 	}
 	return truth, model, liar
+}
+
+// mutator looks for a transformation that writes into its argument when given
+// one of the values; the names of the list are tried first. It turns the many
+// downstream effects of such a defect into its one root-cause signature.
+func mutator(list []string, values []string) string {
+	for _, t := range append(append([]string(nil), list...), names()...) {
+		if t == "none" {
+			continue
+		}
+		f := mustGet(t)
+		for _, v := range values {
+			arg := heapString([]byte(v))
+			if p := probe.Safe(func() { _, _, _ = f(arg) }); p == "" && arg != v {
+				return t
+			}
+		}
+	}
+	return ""
 }
 
 func set(vs []string) map[string]bool {
@@ -233,14 +259,18 @@ func ruleScenario(list []string, multi bool, in []byte) Scenario {
 
 // evalRules judges one input against every list of a group (rc may be nil).
 func evalRules(s sink, rc *runner.Ctx, w coraza.WAF, group [][]string, master []byte) {
-	in := string(master)
+	in := heapString(master)
 	seen, pan := seenValues(w, in)
 	if pan != "" {
 		s.Violation("panic:rule:"+digits.ReplaceAllString(pan, "N"), "transaction panics with ARGS_GET:a="+q(in)+": "+pan, ruleScenario(group[0], true, master))
 		return
 	}
 	if in != string(master) {
-		s.Violation("rule:input-modified", fmt.Sprintf("the argument value handed to the transaction was modified: passed %s, afterwards %s", q(string(master)), q(in)), ruleScenario(group[0], true, master))
+		sig := "rule:input-modified"
+		if t := mutator(nil, []string{string(master)}); t != "" {
+			sig = t + ":input-modified"
+		}
+		s.Violation(sig, fmt.Sprintf("the argument value handed to the transaction was modified: passed %s, afterwards %s", q(string(master)), q(in)), ruleScenario(group[0], true, master))
 		return
 	}
 	for j, list := range group {
@@ -270,7 +300,9 @@ func evalRules(s sink, rc *runner.Ctx, w coraza.WAF, group [][]string, master []
 		if !sameSet(gs, ts) {
 			what := fmt.Sprintf("SecRule ARGS_GET:a \"@unconditionalMatch\" \"multiMatch,t:%s\" with a=%s: the operator saw %s; the values of the pipeline are %s",
 				strings.Join(list, ",t:"), q(in), qs(got), qs(truth))
-			switch {
+			switch t := mutator(list, truth); {
+			case t != "":
+				s.Violation(t+":input-modified", what+"; cause: "+t+" writes into the string it is given", ruleScenario(list, true, master))
 			case liar != nil && sameSet(gs, set(model)):
 				s.Violation(liar.name+":"+flagSignature(liar.in, liar.out),
 					what+fmt.Sprintf("; cause: %s reports changed=false for %s although it returns %s", liar.name, q(liar.in), q(liar.out)), ruleScenario(list, true, master))
@@ -292,11 +324,34 @@ func evalRules(s sink, rc *runner.Ctx, w coraza.WAF, group [][]string, master []
 		// plain rule
 		got = seen[1001+2*j]
 		if len(got) != 1 || got[0] != final {
-			s.Violation("rule:final-value-differs-from-direct-composition",
+			sig := "rule:final-value-differs-from-direct-composition"
+			if t := mutator(list, truth); t != "" {
+				sig = t + ":input-modified"
+			}
+			s.Violation(sig,
 				fmt.Sprintf("SecRule ARGS_GET:a \"@unconditionalMatch\" \"t:%s\" with a=%s: the operator saw %s; composing the direct calls gives %s",
 					strings.Join(list, ",t:"), q(in), qs(got), q(final)), ruleScenario(list, false, master))
 		}
 	}
+}
+
+func replayGroup(col *collector, thorough bool, g int, in []byte) {
+	ls := lists(thorough)
+	if g < 0 || g >= len(ls) {
+		return
+	}
+	end := g + groupSize
+	if end > len(ls) {
+		end = len(ls)
+	}
+	group := ls[g:end]
+	w, err := scen.Build(confFor(group))
+	if err != nil {
+		col.Violation("build", err.Error(), nil)
+		return
+	}
+	defer scen.Close(w)
+	evalRules(col, nil, w, group, in)
 }
 
 func replayRule(col *collector, list []string, multi bool, in []byte) {
